@@ -24,7 +24,7 @@ def argCfg (s : String) : Option Cfg := do
       else if ck = str "fixed" then .fixed ca else .none
     pure { nick := nick, user := user, sasl := sasl, supportedCaps := sc,
            disableSTS := flag fl 0, disableSTSFallback := flag fl 1, ssl := flag fl 2, tlsActive := flag fl 3,
-           stsRecentlyFailed := flag fl 4, disableTracking := flag fl 5,
+           stsRecentlyFailed := flag fl 4, disableTracking := flag fl 5, globalFormat := flag fl 6,
            version := version, runtimeVersion := rtv, nickCollide := nc, clientName := cname }
   | _ => none
 
@@ -34,24 +34,41 @@ def showEnded : Ended → String
 
 /-- run cfg steps : steps are byte strings: 'R' line | 'D' (dump).
     Output: `W=[wire lines] D=[dump;dump] E=<ended> F=<fault|->` -/
-def runSteps (cfg : Cfg) : List Bytes → Run → List (List Bytes) → Except Fault (Run × List (List Bytes))
+def runSteps (cfg : Cfg) (isURL : Bytes → Bool) : List Bytes → Run → List (List Bytes) → Except Fault (Run × List (List Bytes))
   | [], r, ds => .ok (r, ds.reverse)
   | s :: rest, r, ds =>
     match s with
-    | 0x52 :: line => do let r ← stepLine cfg r line; runSteps cfg rest r ds
-    | 0x44 :: _ => runSteps cfg rest r (dumpState r.cs.st :: ds)
-    | _ => runSteps cfg rest r ds
+    | 0x52 :: line => do let r ← stepLine cfg r line isURL; runSteps cfg isURL rest r ds
+    | 0x44 :: _ => runSteps cfg isURL rest r (dumpState r.cs.st :: ds)
+    | 0x43 :: call =>
+      match splitOnByte 0x00 call with
+      | name :: args => runSteps cfg isURL rest (stepCall cfg isURL r name args) ds
+      | [] => runSteps cfg isURL rest r ds
+    | _ => runSteps cfg isURL rest r ds
 
 def handleRun (op : String) (args : List String) : Option String :=
   match op, args with
-  | "run", [c, steps] => do
+  | "run", [c, steps, bad] => do
     let cfg ← argCfg c
     let steps ← argList steps
-    match runSteps cfg steps {} [] with
+    let bad ← argList bad
+    match runSteps cfg (fun w => !bad.contains w) steps {} [] with
     | .ok (r, ds) =>
       let w := r.written.map (wireEvent r.cs.st)
       pure s!"W={listHx w} D={";".intercalate (ds.map listHx)} E={showEnded r.ended} F=-"
     | .error f => pure s!"W=[] D= E=fault F={showFault f}"
+  | "splitmsg", [t, w, bad] => do
+    let t ← arg t; let w ← w.toNat?; let bad ← argList bad
+    pure (listHx (splitMessage (fun x => !bad.contains x) t w))
+  | "evsplit", [tg, sr, c, p, ml, bad] => do
+    let e ← argEvent tg sr c p; let ml ← ml.toInt?; let bad ← argList bad
+    pure (";".intercalate ((eventSplit (fun x => !bad.contains x) e ml).map showEvent))
+  | "maxlen", [c, steps] => do
+    let cfg ← argCfg c
+    let steps ← argList steps
+    match runSteps cfg (fun _ => true) steps {} [] with
+    | .ok (r, _) => pure (toString (maxEventLength cfg r.cs.st))
+    | .error f => pure (showFault f)
   | "parsecap", [a] => do
     let s ← arg a
     let m := parseCap s
